@@ -75,6 +75,13 @@ def body(ctx):
     for n_ in (4080, 4088, 4089, 4090, 4095, 4096, 4097, 5000, 70000):
         fam.append(dict(seed=ctx.seed + 700 + n_, maxdata=1024 * 1024, rid='plus', frag='whole',
                         ops=[dict(api=('shell', 'exec_out', 'streaming_shell')[n_ % 3], decode=False, cmd='x' * n_, chunks=[b'ok'.hex()])]))
+    # a generator kept across a reconnect and closed by the caller afterwards: nothing of the old connection's streams goes onto the new one
+    for cf in (True, False):
+        for take in (0, 1):
+            fam.append(dict(seed=ctx.seed + 780 + len(fam), maxdata=4096, rid=('plus', 'same')[take], frag='whole',
+                            ops=[dict(api='streaming_shell', decode=False, cmd='keep', chunks=[b'k1'.hex(), b'k2'.hex(), b'k3'.hex()], take=take, hold='keep'),
+                                 dict(api='shell', decode=False, cmd='a', chunks=[b'A'.hex()]), dict(api='reconnect', close_first=cf), dict(api='shell', decode=False, cmd='b', chunks=[b'B'.hex()]),
+                                 dict(api='drop', gen='keep'), dict(api='shell', decode=False, cmd='c', chunks=[b'C'.hex()])]))
     # a pushed directory with a sub-directory in it; a peer that announces more than 1 MiB and a push that fills it
     for names in ([['a.txt', 10], ['m/', 0], ['z.bin', 500]], [['a', 5], ['b', 6], ['zz/', 0]], [['0/', 0], ['b', 10]]):
         fam.append(dict(seed=ctx.seed + 800 + len(fam), maxdata=4096, rid='plus', frag='whole',
